@@ -320,6 +320,29 @@ func (c *Ctx) c02Deliver() {
 				}
 			}
 		}
+		// every (stateful) reader segment must be created in the same loop iteration as the
+		// Delivery it is stored in: a reader shared across iterations is exhausted by the
+		// first store and later recipients receive nothing
+		want := loopHeaders(s.Store.Block())
+		for i := int64(0); i < n; i++ {
+			v := unwrapIface(elems[i])
+			def, ok := v.(ssa.Instruction)
+			if !ok {
+				continue
+			}
+			have := loopHeaders(def.Block())
+			for _, h := range want {
+				in := false
+				for _, g := range have {
+					if g == h {
+						in = true
+					}
+				}
+				if !in {
+					problems = append(problems, fmt.Sprintf("segment %d is a reader created outside the per-mailbox loop (at %s) and shared by all iterations: after the first AddMessage it is at EOF, so every further recipient stores a message without that part", i, p.InstrPos(def)))
+				}
+			}
+		}
 		if len(problems) > 0 {
 			r.Bad("C02/DELIVER/concat", cons, p.InstrPos(s.Store), "%s", strings.Join(problems, "; "))
 		} else {
